@@ -23,7 +23,11 @@ KINDS = {
     16: dict(rd=["c"], wr=[], ld=[], st=["n"], memorder=False, special=False, jk="none", len=2),
     17: dict(rd=["b"], wr=[], ld=[], st=["m"], memorder=False, special=False, jk="none", len=4, addrreg="b"),
     18: dict(rd=["b"], wr=["a"], ld=["m"], st=[], memorder=False, special=False, jk="none", len=4, addrreg="b"),
+    # a REGISTER named like the memory space m (registers and memories are separate name spaces)
+    19: dict(rd=[], wr=["m"], ld=[], st=[], memorder=False, special=False, jk="none", len=4),
+    20: dict(rd=["m"], wr=["c"], ld=[], st=[], memorder=False, special=False, jk="none", len=4),
 }
+SAMEKEY = [1, 6, 7, 8, 12, 19, 20]      # small alphabet around the shared key
 BASES = [[0, 16, 0, 0, 0, 0, 0, 0], [0, 0, 0, 0, 1, 0, 0, 0], [0, 240, 255, 255, 255, 255, 255, 127], [0, 0, 0, 0, 0, 0, 0, 240]]
 
 DEPS_LEVEL = ("The reordering state machine (spec/Deps.tla) is model-checked by TLC (every block of <= 3-4 abstract "
@@ -109,7 +113,7 @@ class C06(DepsCheck):
 
     def groups(self, tier, seed):
         rng = random.Random(seed * 67867967 + 6)
-        hs = self.histories(3, ALLK, "C06-gen")
+        hs = self.histories(3, ALLK, "C06-gen") + self.histories(3, SAMEKEY, "C06-genk")
         if tier == "thorough":
             hs += self.histories(4, [1, 2, 3, 6, 7, 9, 10, 12, 13, 14], "C06-gen4")
         self.exhaustive = True
@@ -139,7 +143,7 @@ class C07(DepsCheck):
 
     def groups(self, tier, seed):
         rng = random.Random(seed * 86028157 + 7)
-        hs = self.histories(3, ALLK, "C07-gen")
+        hs = self.histories(3, ALLK, "C07-gen") + self.histories(3, SAMEKEY, "C07-genk")
         if tier == "thorough":
             hs += self.histories(4, [1, 2, 3, 6, 7, 9, 10, 12, 13, 14], "C07-gen4")
         gs = []
@@ -261,7 +265,7 @@ class C08(DepsCheck):
     rule = ("abstract programs over <= 5 instruction slots (absent slots = address gaps; kinds: plain, branch to the next "
             "instruction only, conditional branch to t, jump to t, indirect jump, jump with two targets; t in slot "
             "starts, mid-instruction, gap, behind the code, outside; entry point likewise, incl. the empty program) - "
-            "exhaustive for <= 3 slots, sampled for 4-5; NewCode must fail iff entry or a constant real target is not an "
+            "exhaustive for <= 3 slots, sampled for 4-5, instruction lists also reversed / rotated / shuffled; NewCode must fail iff entry or a constant real target is not an "
             "instruction start, else the blocks must equal Deps!Partition; non-trivial = program with >= 2 instructions; "
             "distinct by (program, entry)")
     assumptions = ["instructions do not overlap", "4-byte slots"]
@@ -280,6 +284,18 @@ class C08(DepsCheck):
         gs = []
         for i, (ins, entry) in enumerate(c08_programs(rng, tier)):
             gs.append([{"case": "p%d" % i, "op": "new", "base": rng.choice(BASES), "entry": entry, "ins": ins}])
+            # the instruction list in another order (reversed, rotated, shuffled): nothing may depend on the order given
+            if len(ins) >= 2 and (tier == "thorough" or rng.random() < 0.5):
+                c = rng.random()
+                if c < 0.35:
+                    ins2 = list(reversed(ins))
+                elif c < 0.7:
+                    r = rng.randrange(1, len(ins))
+                    ins2 = ins[r:] + ins[:r]
+                else:
+                    ins2 = list(ins)
+                    rng.shuffle(ins2)
+                gs.append([{"case": "u%d" % i, "op": "new", "base": rng.choice(BASES), "entry": entry, "ins": ins2}])
         return gs
 
 
@@ -292,7 +308,7 @@ class C05Abstract(DepsCheck):
 
     def groups(self, tier, seed):
         rng = random.Random(seed * 122949829 + 5)
-        hs = self.histories(3, ALLK, "C05-gen")
+        hs = self.histories(3, ALLK, "C05-gen") + self.histories(3, SAMEKEY, "C05-genk")
         gs = []
         for i, h in enumerate(hs):
             g = self.single_block_group(rng, "b%d" % i, h)
